@@ -247,8 +247,8 @@ def r2b(repo, run):
                 R = co[0].result.text
                 if p.ret.text == R:
                     pass
-                elif p.ret.text in ('ConfigNode(None)',) and tr.fact(p, R + ' is None', True):
-                    pass
+                elif p.ret.text in ('ConfigNode(None)', 'None') and (tr.fact(p, R + ' is None', True) or tr.fact(p, R + ' is not None', False)):
+                    pass        # (a literal None returned where the constructed value is known to be None is that value)
                 else:
                     other.add('the value a tagged scalar resolves to is post-processed (%s is returned instead of what the untagged scalar constructs): the tag changes the value [%s]' % (p.ret.text[:50], tr.describe(p, 4)))
             if r.args[0].text != 'yaml.ScalarNode' or r.args[1].text not in ('copy.deepcopy(node).value', 'node.value', 'copy.copy(node).value'):
@@ -544,15 +544,24 @@ def _inline_locals(fi, e, loop):
 
 def r7(repo, run):
     """{{..}} -> :hex rewriting keeps its offsets consistent when a document holds several metadata blocks"""
+    _r7_offsets(repo, run)
+    _r7_codec(repo, run)
+
+
+def _r7_offsets(repo, run):
+    # (the shape `beg += offset; end += offset; data = data[:beg] + repl + data[end:]; offset += len(repl) - (end - beg)` is read off the
+    # source when the loop is written that way; any other spelling is decided by evaluation alone: unitrules.metadata_syntax_table runs the
+    # function on texts with one, two and three blocks)
     fi = repo.func('yaml._encode_all_metadata')
     loops = [st for st in fi.node.body if isinstance(st, ast.For)]
     if len(loops) != 1 or not isinstance(loops[0].target, ast.Tuple) or len(loops[0].target.elts) != 2:
-        raise AnalysisError('_encode_all_metadata: rewrite loop not recognised')
+        run.info('C01.R7', fi, 'rewrite loop', 'not in the recognised shape; decided by the evaluated table')
+        return
     lp = loops[0]
     b, e_ = [x.id for x in lp.target.elts]
     offs = [st for st in lp.body if isinstance(st, ast.AugAssign) and isinstance(st.op, ast.Add) and isinstance(st.target, ast.Name) and st.target.id not in (b, e_)]
-    if len(offs) != 1:
-        run.violation('C01.R7', fi, 'offset bookkeeping', 'the rewrite loop does not accumulate the length difference of each replacement: the second and later metadata blocks of a document are cut at stale positions', node=lp)
+    if len(offs) != 1 or len([st for st in lp.body if isinstance(st, ast.Assign) and norm(st.targets[0]) == 'data']) != 1:
+        run.info('C01.R7', fi, 'offset bookkeeping', 'not in the recognised shape; decided by the evaluated table')
         return
     off = offs[0].target.id
     shifted = {st.target.id for st in lp.body if isinstance(st, ast.AugAssign) and isinstance(st.op, ast.Add) and norm(st.value) == off and st.lineno < offs[0].lineno}
@@ -580,6 +589,9 @@ def r7(repo, run):
         run.violation('C01.R7', fi, 'metadata rewrite offsets', '; '.join(probs) + ' - documents with two or more {{...}} blocks are rewritten at wrong positions', node=lp)
     else:
         run.ok('C01.R7', (fi.file, lp.lineno, fi.qualname), 'beg += offset; end += offset; data = data[:beg] + repl + data[end:]; offset += len(repl) - (end - beg)', 'positions stay aligned across several metadata blocks')
+
+
+def _r7_codec(repo, run):
     enc, dec = repo.func('yaml._encode_metadata'), repo.func('yaml._decode_metadata')
     # (read off the traces, locals substituted; how the decoded mapping is split into node flags and user metadata is decided by
     # evaluation: unitrules.decode_metadata_table)
